@@ -90,6 +90,20 @@ PROPS["C05"] = dict(
     technique="model-based property testing: seeded generated register/unregister histories against a reference multiset model under a virtual clock; choice-sequence shrinking",
     design_ref="DESIGN.md section 3 (C05)",
 )
+PUMP_LABELS = ["buffer_full_pollin_dropped", "eof_read_with_data_buffered", "hard_error_with_data_buffered", "splice_mode", "read_write_mode", "relay_eof_flag",
+               "short_transfer_injected", "eagain_injected", "eintr_injected", "destroy_midstream_with_data", "second_pump_same_thread", "completed",
+               "free_mode", "socket_input", "socket_output", "output_peer_gone", "stream_gt_250k", "backpressure", "eof_relayed_by_shutdown", "empty_stream"]
+PROPS["C17"] = dict(
+    level="exploration", labels=PUMP_LABELS, engine="pump",
+    campaigns=[("pump", [], 60000, 1200000)],
+    rule="cases = 1-3 pump sessions per thread, each: input/output on pipes or unix stream sockets (small or default buffers), stream length 0..300k of position-dependent bytes, generated write chunking / consumer drain amounts / input close point / output-peer close / destroy mid-stream, band-driven or free calling mode, RELAY_EOF on/off, splice or read-write mode (splice probe made to fail), injected short transfers, EAGAIN, EINTR and one hard write error; oracles after every iv_fd_pump_pump call: consumer bytes == input bytes at every offset, buffered = written - FIONREAD(in) - FIONREAD(out peer) - consumed computed from outside, pollout == (buffered>0), pollin only dropped with data buffered or at end-of-file, pollin restored after bytes moved out, return 0 only at EOF with nothing buffered (then sticky, is_done), -1 only after an injected error or a vanished peer, shutdown(SHUT_WR) only with RELAY_EOF, at EOF and with nothing buffered, no stall; non-trivial = session reached buffer-full AND end-of-file with data still buffered, or a hard error with data buffered, or a destroy with data buffered followed by another pump; distinct = hash of configuration + operation sequence",
+    assumptions=["FIONREAD is exact on pipes and AF_UNIX stream sockets (checked in the design prototype against the pump's own byte count)",
+                 "descriptors are non-blocking as they are after iv_fd_register"],
+    level_text="exploration of generated relay sessions with fault injection at the read/write/splice boundary; stream equality and externally computed pump state after every call",
+    level_note="trusted: the external byte accounting in harness/t_pump.c, kernel FIONREAD, link-time interposition of read/write/splice/shutdown; ASan/UBSan.",
+    technique="property-based testing with fault injection: seeded generated I/O schedules, round-trip (stream equality) and state-accounting oracles; choice-sequence shrinking",
+    design_ref="DESIGN.md section 3 (C17)",
+)
 
 ENGINES = [
     dict(name="vfz", path="harness/vfz.c", serves_properties=["C01", "C02", "C03", "C04", "C06", "C07"],
@@ -101,6 +115,7 @@ ENGINES = [
 ]
 ENGINES.append(dict(name="avl", path="harness/t_avl.c", serves_properties=["C16"], kind_free_text="AVL tree: bounded-exhaustive shape enumeration and random histories against a reference ordered set"))
 ENGINES.append(dict(name="timers", path="harness/t_timers.c", serves_properties=["C05"], kind_free_text="timer heap histories at large populations against a reference multiset model, virtual clock"))
+ENGINES.append(dict(name="pump", path="harness/t_pump.c", serves_properties=["C17"], kind_free_text="iv_fd_pump sessions with interposed read/write/splice/shutdown and external byte accounting"))
 NOT_APPLICABLE = {}
 
 _COMMON_NOTE = ("trusted: the harness' shadow model and oracles (harness/t_loop.c), the link-time interposition layer (harness/vk.c), the running "
